@@ -1,11 +1,19 @@
 import Cactus.Lemmas.Release
 import Cactus.Lemmas.Basic
 /-!
-# C04 — destroyed objects return all memory (first layer: the release steps)
+# C04 — destroyed objects return all memory
 
 In the model the allocation of an object is `freed`, its table is `links` (`none` once dropped)
-and its value `value`.  The real allocator and hashbrown's buffer policy are abstracted; the
-harness observes exact `RcBox` block counts per step and net-zero bytes per history (channel A).
+and its value `value`.  What is proved here:
+* one-step lemmas about the release steps: `C04_decWeak_frees_iff`, `C04_finishSingle`,
+  `C04_no_double_release`;
+* whole panic-free histories (`ReachableNP`), at operation boundaries:
+  `C04_destroyed_objects_return_memory`, `C04_fully_collected_graph_leaks_nothing`;
+* example: one history in which objects die by every path (collected group, zero count with
+  adoptions, plain last-handle drop, `try_unwrap`), the theorems instantiated at every object.
+Not proved: the real allocator and hashbrown's buffer policy are abstracted; the harness observes
+exact `RcBox` block counts per step (the `F`/`heap` channels) and the end-of-history byte balance.
+Histories with panicking destructors legitimately leak (C11) and are excluded.
 -/
 namespace Cactus
 open State
@@ -84,5 +92,110 @@ theorem C04_fully_collected_graph_leaks_nothing {s : State} (h : ReachableNP s) 
     (hw : s.wroots = []) (hv : s.vals = []) :
     ∀ (o : Nat) (ob : Obj), s.heap[o]? = some ob → ob.freed = true :=
   C04_all_collected_nothing_left h he hq hall hw hv
+
+/-! ## Non-vacuity: every path by which an object dies, in one panic-free history
+
+A two-cycle `0 ↔ 1` with a Weak to member 0 (collected group); `2 → 3` adopted but acyclic (zero
+count with adoptions, then a cascade); object 4 plain (last-handle drop); object 5 unwrapped by
+`try_unwrap` while a Weak to it exists (given up).  First the glue that turns "no `setPanic` in the
+history" into `ReachableNP (run ops)`. -/
+
+instance : DecidablePred Act.noPanic := fun a => by
+  cases a <;> simp only [Act.noPanic] <;> infer_instance
+
+instance : DecidablePred Op.noPanic := fun o => by
+  cases o <;> simp only [Op.noPanic] <;> infer_instance
+
+theorem drain_reachableNP (f : Nat) (s : State) (h : ReachableNP s) : ReachableNP (drain f s) := by
+  induction f generalizing s with
+  | zero =>
+    unfold drain
+    split
+    · exact h
+    · exact .outOfFuel h
+  | succ f ih =>
+    unfold drain
+    split
+    · exact ih _ (.step h)
+    · exact h
+
+theorem foldl_execOp_reachableNP (fuel : Nat) (ops : List (Op × List Nat))
+    (hops : ∀ oh ∈ ops, oh.1.noPanic) (s : State)
+    (hr : ReachableNP s) (hq : s.err = none → s.stack = []) :
+    ReachableNP (ops.foldl (fun s oh => execOp fuel s oh.1 oh.2) s)
+    ∧ ((ops.foldl (fun s oh => execOp fuel s oh.1 oh.2) s).err = none →
+        (ops.foldl (fun s oh => execOp fuel s oh.1 oh.2) s).stack = []) := by
+  induction ops generalizing s with
+  | nil => exact ⟨hr, hq⟩
+  | cons oh rest ih =>
+    simp only [List.foldl_cons]
+    apply ih (fun x hx => hops x (List.mem_cons_of_mem _ hx))
+    · unfold execOp
+      split
+      · exact hr
+      · rename_i he
+        exact .endOp (drain_reachableNP fuel _ (.op oh.1 oh.2 hr (hq he) (hops oh List.mem_cons_self)))
+    · exact execOp_quiescent fuel s oh.1 oh.2 hq
+
+theorem run_reachableNP (ops : List (Op × List Nat)) (hops : ∀ oh ∈ ops, oh.1.noPanic) :
+    ReachableNP (run ops) ∧ ((run ops).err = none → (run ops).stack = []) :=
+  foldl_execOp_reachableNP defaultFuel ops hops {} .init (fun _ => rfl)
+
+def releaseHistory : List (Op × List Nat) :=
+  [(.act .new, []), (.act .new, []),
+   (.act (.clone 1), []), (.act (.link 2 0), []),     -- 0 → 1
+   (.act (.clone 0), []), (.act (.link 2 1), []),     -- 1 → 0: a two-cycle
+   (.act (.downgrade 0), []),                         -- Weak to member 0
+   (.act .new, []), (.act .new, []),                  -- objects 2, 3
+   (.act (.link 3 2), []),                            -- 2 → 3: adopted, acyclic
+   (.act .new, []),                                   -- object 4: plain
+   (.act .new, []), (.act (.downgrade 4), []),        -- object 5 and a Weak to it
+   (.act (.tryUnwrap 4), []), (.act (.dropValue 0), []),  -- 5 unwrapped (given up), value dropped
+   (.act (.drop 1), []),                              -- program's handle to 1
+   (.act (.drop 0), []),                              -- handle to 0: the group {0, 1} is collected
+   (.act (.drop 0), []),                              -- last handle to 2: zero count with adoptions
+   (.act (.drop 0), [])]                              -- last handle to 4: plain last-handle drop
+theorem releaseHistory_noPanic : ∀ oh ∈ releaseHistory, oh.1.noPanic := by decide
+
+theorem releaseHistory_noErr : (run releaseHistory).err = none := by decide +kernel
+
+/-- the final state by evaluation: (strong, weak, table gone, value present, freed, implicit) per object;
+all six are dead, 0 and 5 are kept allocated by the two Weak handles `[0, 5]` -/
+example : let s := run releaseHistory
+    s.roots = [] ∧ s.wroots = [0, 5] ∧ s.vals = [] ∧ s.stack = []
+    ∧ s.heap.map (fun ob => (ob.strong, ob.weak, ob.links.isNone, ob.value.isSome, ob.freed, ob.implicit))
+      = [(.uninit, 1, true, false, false, false), (.uninit, 0, true, false, true, false),
+         (.uninit, 0, true, false, true, false), (.uninit, 0, true, false, true, false),
+         (.uninit, 0, true, false, true, false), (.cnt 0, 1, true, false, false, false)]
+    ∧ s.log = [.ret 1, .destroyed 5, .traced 1 2 3, .traced 0 2 3, .destroyed 1, .destroyed 0, .freed 1,
+               .destroyed 2, .destroyed 3, .freed 3, .freed 2, .destroyed 4, .freed 4] := by
+  decide +kernel
+
+/-- `C04_destroyed_objects_return_memory` instantiated at every object of that state: table and
+value gone, implicit weak released, allocation released iff no Weak handle remains -/
+example (o : Nat) (ob : Obj) (hg : (run releaseHistory).heap[o]? = some ob) :
+    ob.links = none ∧ ob.value = none ∧ ob.implicit = false
+      ∧ (ob.freed = true ↔ (run releaseHistory).extW o + (run releaseHistory).inHeapW o = 0) := by
+  have hd : ∀ ob ∈ (run releaseHistory).heap, ob.strong.isDead = true := by decide +kernel
+  exact C04_destroyed_objects_return_memory (run_reachableNP releaseHistory releaseHistory_noPanic).1
+    releaseHistory_noErr (by decide +kernel) hg (hd ob (List.mem_of_getElem? hg))
+
+/-- in particular member 0 of the collected group is not released (one Weak handle), member 1 is -/
+example : (run releaseHistory).extW 0 + (run releaseHistory).inHeapW 0 = 1
+    ∧ (run releaseHistory).extW 1 + (run releaseHistory).inHeapW 1 = 0 := by decide +kernel
+
+/-- after the two Weak handles are dropped as well, the hypotheses of
+`C04_fully_collected_graph_leaks_nothing` hold and every allocation has been released -/
+def releaseAllHistory : List (Op × List Nat) :=
+  releaseHistory ++ [(.act (.dropWeak 0), []), (.act (.dropWeak 0), [])]
+
+example (o : Nat) (ob : Obj) (hg : (run releaseAllHistory).heap[o]? = some ob) : ob.freed = true := by
+  have hd : ∀ ob ∈ (run releaseAllHistory).heap, ob.strong.isDead = true := by decide +kernel
+  exact C04_fully_collected_graph_leaks_nothing
+    (run_reachableNP releaseAllHistory (by decide)).1 (by decide +kernel) (by decide +kernel)
+    (fun o ob hg => hd ob (List.mem_of_getElem? hg)) (by decide +kernel) (by decide +kernel) o ob hg
+
+example : (run releaseAllHistory).heap.map (·.freed) = [true, true, true, true, true, true]
+    ∧ (run releaseAllHistory).log.drop 13 = [.freed 0, .freed 5] := by decide +kernel
 
 end Cactus
